@@ -19,7 +19,9 @@ def run (_tag : String) (kv : KV) : String :=
   -- net/rpc, plugin exiting / already gone: the host's Close may find the session shut down before it has closed its
   -- remaining streams (`killGonePeer`): the forced flag can be set although the plugin left on its own
   let goneRace := proto = .netrpc && (b = "fast" || b = "fast500" || b = "fastlost" || b = "dead" || b = "busy1000")
-  let forced := if pat = "concurrent" || goneRace then "any" else showBool o.forced
+  -- (overlapping Kills are serialised, `Facts.killOverlap`: they add nothing to what the first one does; without that a
+  -- later Kill finds the client closed and force-kills at once)
+  let forced := if goneRace || (pat = "concurrent" && !Facts.killOverlap.serialised) then "any" else showBool o.forced
   -- a reattached client learns of the exit by polling once a second
   let slack := if kv.getD "launch" "cmd" = "reattach" ∨ kv.getD "launch" "cmd" = "reattach-far" then 1200 else 0
   s!"ret={showBool o.returns} forced={forced} dead={showBool o.procDead} exited={showBool o.exitedFlag} bound={o.boundMs + slack}"
